@@ -4,7 +4,7 @@ From Coq Require Import ZArith List String.
 Import ListNotations.
 Open Scope Z_scope.
 
-(* fragment sv_check_compressed_axes from sparse/numba_backend/_utils.py:check_compressed_axes selector=None srchash=b49b2390138fdfdf *)
+(* fragment sv_check_compressed_axes from sparse/numba_backend/_utils.py:check_compressed_axes selector=None srchash=d1ca5e9d524d1115 *)
 Definition sv_check_compressed_axes (ndim : pyv) (compressed_axes : pyv) : res pyv :=
 t1_ <- (py_is_none compressed_axes) ;;
 if cond t1_ then (
@@ -24,11 +24,11 @@ t4_ <- (t5_ <- (py_len compressed_axes) ;; py_eq t5_ ndim) ;;
 if cond t4_ then (
 Raise ValueError
 ) else (
-t6_ <- (t7_ <- ext_set_order_equal compressed_axes ;; py_not t7_) ;;
+t6_ <- (t7_ <- ext_all_integral compressed_axes ;; py_not t7_) ;;
 if cond t6_ then (
 Raise ValueError
 ) else (
-t8_ <- (t9_ <- ext_all_integral compressed_axes ;; py_not t9_) ;;
+t8_ <- (t9_ <- ext_sorted_set_equal compressed_axes ;; py_not t9_) ;;
 if cond t8_ then (
 Raise ValueError
 ) else (
@@ -74,6 +74,10 @@ Ok VNone
 (* fragment sv_bcast_ok from sparse/numba_backend/_umath.py:_get_broadcast_shape selector=None srchash=7da97acaaf2a9548 *)
 Definition sv_bcast_ok (l1 : pyv) (l2 : pyv) (is_result : pyv) : res pyv :=
 (t3_ <- (py_eq l1 l2) ;; if cond t3_ then Ok t3_ else (t2_ <- (py_eq l1 (VInt (1))) ;; if cond t2_ then Ok t2_ else (t1_ <- (py_eq l2 (VInt (1))) ;; if cond t1_ then (py_not is_result) else Ok t1_))).
+
+(* fragment sv_bcast_more_dims from sparse/numba_backend/_umath.py:_get_broadcast_shape selector=None srchash=77499707371f4eb8 *)
+Definition sv_bcast_more_dims (is_result : pyv) (shape1 : pyv) (shape2 : pyv) : res pyv :=
+(t3_ <- Ok is_result ;; if cond t3_ then (t1_ <- (py_len shape1) ;; t2_ <- (py_len shape2) ;; py_gt t1_ t2_) else Ok t3_).
 
 (* fragment sv_bcast_dim from sparse/numba_backend/_umath.py:_get_broadcast_shape selector=None srchash=d88d658d14370f65 *)
 Definition sv_bcast_dim (l1 : pyv) (l2 : pyv) : res pyv :=
@@ -143,13 +147,13 @@ Definition site_prog_coo_reshape : prog :=
 Definition site_prog_broadcast_to : prog :=
 (PSeq (PIf PReturn PSkip) (PSeq (PVal "_get_broadcast_shape"%string) (PSeq (PKer "_get_expanded_coords_data"%string) (PSeq (PKer "COO"%string) PReturn)))).
 
-(* call skeleton site_prog_tensordot of sparse/numba_backend/_common.py:tensordot skelhash=d8a98e19d09a8f81 *)
+(* call skeleton site_prog_tensordot of sparse/numba_backend/_common.py:tensordot skelhash=be073e9c10fc9da1 *)
 Definition site_prog_tensordot : prog :=
-(PSeq (PVal "check_zero_fill_value"%string) (PSeq (PIf (PSeq (PIf (PSeq (PIf (PKer "todense"%string) PSkip) (PSeq (PIf (PKer "todense"%string) PSkip) PReturn)) PSkip) PRaise) PSkip) (PSeq (PIf PRaise PSkip) (PSeq (PIf (PSeq (PKer "COO"%string) (PSeq (PIf (PKer "todense"%string) PSkip) PReturn)) PSkip) (PSeq (PSeq (PKer "transpose"%string) (PKer "reshape"%string)) (PSeq (PSeq (PKer "transpose"%string) (PKer "reshape"%string)) (PSeq (PKer "_dot"%string) (PSeq (PKer "reshape"%string) PReturn)))))))).
+(PSeq (PVal "check_zero_fill_value"%string) (PSeq (PIf (PSeq (PIf (PSeq (PIf (PKer "todense"%string) PSkip) (PSeq (PIf (PKer "todense"%string) PSkip) PReturn)) PSkip) PRaise) PSkip) (PSeq (PIf PRaise PSkip) (PSeq (PIf (PSeq (PKer "COO"%string) (PSeq (PIf (PKer "todense"%string) (PIf (PKer "asformat"%string) PSkip)) PReturn)) PSkip) (PSeq (PSeq (PKer "transpose"%string) (PKer "reshape"%string)) (PSeq (PSeq (PKer "transpose"%string) (PKer "reshape"%string)) (PSeq (PKer "_dot"%string) (PSeq (PKer "reshape"%string) PReturn)))))))).
 
-(* call skeleton site_prog_dot of sparse/numba_backend/_common.py:dot skelhash=6469eedc4c3d4a74 *)
+(* call skeleton site_prog_dot of sparse/numba_backend/_common.py:dot skelhash=4c04bf0f8be05b01 *)
 Definition site_prog_dot : prog :=
-(PSeq (PVal "check_zero_fill_value"%string) (PSeq (PIf PRaise PSkip) (PSeq (PIf (PSeq (PIf PRaise PSkip) (PSeq (PIf (PKer "as_coo"%string) PSkip) (PSeq (PIf (PKer "as_coo"%string) PSkip) (PSeq (PKer "sum"%string) PReturn)))) PSkip) (PSeq (PKer "tensordot"%string) PReturn)))).
+(PSeq (PVal "check_zero_fill_value"%string) (PSeq (PIf PRaise PSkip) (PSeq (PIf (PSeq (PKer "tensordot"%string) PReturn) PSkip) (PSeq (PIf (PSeq (PIf PRaise PSkip) (PSeq (PIf (PKer "as_coo"%string) PSkip) (PSeq (PIf (PKer "as_coo"%string) PSkip) (PSeq (PKer "sum"%string) PReturn)))) PSkip) (PSeq (PKer "tensordot"%string) PReturn))))).
 
 (* call skeleton site_prog_coo_getitem of sparse/numba_backend/_coo/indexing.py:getitem skelhash=5e671a58784d846d *)
 Definition site_prog_coo_getitem : prog :=
